@@ -20,8 +20,9 @@ RULE = ("four workloads drawn per run. filelock: 2-3 contenders with their own F
         "commit: 2-3 local committers through MetadataManager with one process killed at a seeded storage call. "
         "s3cas: 2-3 contenders on the conditional-write S3 lock doing acquire/hold (polling is_held)/release with "
         "process pauses and request stalls of 1-200 s around the 60 s lease, heartbeat actors running, transient error bursts "
-        "and stalls on the conditional lock PUTs of a process (renewal / takeover path), and a directed renewal-vs-takeover "
-        "race profile (holder paused past its lease, breaker's If-Match PUT in flight). s3poll: the "
+        "and stalls on the conditional lock PUTs of a process (renewal / takeover path), and two directed profiles: a renewal-vs-takeover "
+        "race (holder paused past its lease, breaker's If-Match PUT in flight) and a release-and-re-acquire race (lease lapsed "
+        "under failing renewals, holder re-acquires through the same instance while the breaker's PUT is in flight). s3poll: the "
         "best-effort provider, only its two stated guarantees. Oracles: critical-section intervals of different "
         "contenders never overlap; a takeover PUT is preceded by an inspection (HEAD or GET) at which true age > lease and "
         "does not replace an object written (renewed / re-acquired) less than a lease ago; acquire never "
@@ -60,9 +61,25 @@ def gen_renewal_race(rng: random.Random) -> dict:
             "profile": "renewal_race"}
 
 
+def gen_reacquire_race(rng: random.Random) -> dict:
+    """Directed profile: a holder whose renewals fail lets its lease lapse, releases and RE-ACQUIRES through the same
+    provider instance, while a breaker's If-Match takeover PUT - issued when the first lease had lapsed - is in flight."""
+    hold = rng.choice([66.0, 70.0, 75.0])
+    acts = [{"name": "c0", "proc": "p0", "cycles": [{"timeout": 100.0, "hold": hold, "pre": 0.5, "poll": 10.0},
+                                                     {"timeout": 30.0, "hold": 70.0, "pre": rng.choice([40.0, 65.0]), "poll": 45.0}]},
+            {"name": "c2", "proc": "p2", "cycles": [{"timeout": 100.0, "hold": 70.0, "pre": rng.choice([62.0, 65.0]), "poll": 10.0}]}]
+    faults = [{"kind": "pause", "actor": "c2", "op": "put", "cls": "LOCK", "nth": 2, "dt": rng.choice([70.0, 90.0, 110.0])},
+              {"kind": "error", "proc": "p0", "op": "put", "cls": "LOCK", "detail": {"if_match": True}, "nth": 1,
+               "exc": rng.choice(["ServiceUnavailable", "InternalError"]), "burst": 3}]
+    return {"mode": "s3cas", "policy": common.gen_policy(rng, 600), "faults": faults, "actors": acts,
+            "profile": "reacquire_race"}
+
+
 def gen(rng: random.Random, tier: str, idx: int) -> dict:
     if idx % 12 == 7:
         return gen_renewal_race(rng)
+    if idx % 12 == 3:
+        return gen_reacquire_race(rng)
     mode = ["filelock", "s3cas", "filelock", "s3cas", "commit", "s3poll"][idx % 6]
     n = rng.randint(2, 3)
     plan: Dict[str, Any] = {"mode": mode, "policy": common.gen_policy(rng, 600), "faults": []}
